@@ -2426,7 +2426,9 @@ FROM (
         child_sqls = []
         for child in node.children:
             child_sql = self.visit(child)
-            if not child_sql.strip().upper().startswith("SELECT"):
+            # A nested operand is already a query (symdiff produces a WITH ... SELECT);
+            # only a bare dataset name needs wrapping.
+            if not child_sql.strip().upper().startswith(("SELECT", "WITH", "(")):
                 child_sql = (
                     f"SELECT * FROM "
                     f"{quote_name(child.value if hasattr(child, 'value') else child_sql)}"
